@@ -1,0 +1,25 @@
+//go:build verif
+
+// Verification contracts for the SQL processor's segment decoder, functional part (C07; comment-only; read by
+// /verif/govc). This file contains no executable code. The safety / allocation clauses of the same functions are in
+// zz_verif_contracts.go (C34); the blocks below are read only when C07 is checked (only_for).
+// kvGroup / kvPayload / kvUnzigzag: /verif/spec/kafka_record.spec (one definition for all decoders).
+
+package decoder
+
+//@ func readVarint
+//@   only_for C07
+//@   bitprecise
+//@   ensures [C07.varint_reads_one_group] err == nil ==> kvGroup(reader, old(brPos(reader)), brPos(reader) - old(brPos(reader))) && brPos(reader) - old(brPos(reader)) <= 5
+//@   ensures [C07.varint_value_1] err == nil && brPos(reader) - old(brPos(reader)) == 1 && kvPayload(reader, old(brPos(reader)), 1) < 4294967296 ==> mathint(result0) == kvUnzigzag(kvPayload(reader, old(brPos(reader)), 1))
+//@   ensures [C07.varint_value_2] err == nil && brPos(reader) - old(brPos(reader)) == 2 && kvPayload(reader, old(brPos(reader)), 2) < 4294967296 ==> mathint(result0) == kvUnzigzag(kvPayload(reader, old(brPos(reader)), 2))
+//@   ensures [C07.varint_value_3] err == nil && brPos(reader) - old(brPos(reader)) == 3 && kvPayload(reader, old(brPos(reader)), 3) < 4294967296 ==> mathint(result0) == kvUnzigzag(kvPayload(reader, old(brPos(reader)), 3))
+//@   ensures [C07.varint_value_4] err == nil && brPos(reader) - old(brPos(reader)) == 4 && kvPayload(reader, old(brPos(reader)), 4) < 4294967296 ==> mathint(result0) == kvUnzigzag(kvPayload(reader, old(brPos(reader)), 4))
+//@   ensures [C07.varint_value_5] err == nil && brPos(reader) - old(brPos(reader)) == 5 && kvPayload(reader, old(brPos(reader)), 5) < 4294967296 ==> mathint(result0) == kvUnzigzag(kvPayload(reader, old(brPos(reader)), 5))
+//@   ensures [C07.varint_rejects_only_truncated_or_overlong] err != nil ==> (brPos(reader) == brLen(reader) || brPos(reader) - old(brPos(reader)) >= 5) && (forall i int :: old(brPos(reader)) <= i && i < brPos(reader) ==> brAt(reader, i) >= 128)
+//@   loop 1 invariant [C07.varint_inv] shift == 7 * (brPos(reader) - old(brPos(reader))) && brPos(reader) - old(brPos(reader)) <= 4 && (forall i int :: old(brPos(reader)) <= i && i < brPos(reader) ==> brAt(reader, i) >= 128) && mathint(value) == kvPayload(reader, old(brPos(reader)), brPos(reader) - old(brPos(reader))) && 0 <= mathint(value) && mathint(value) < (1 << shift)
+
+//@ func zigZagDecode
+//@   only_for C07
+//@   bitprecise
+//@   ensures [C07.zigzag32] mathint(result) == kvUnzigzag(ite(value >= 0, mathint(value), mathint(value) + 4294967296))
